@@ -154,6 +154,14 @@ theorem nullary_without_brackets (bs : Bool) (s : Str) (fn : Function) (t : Lexe
   unfold parseFunction
   cases t <;> simp_all [fnHeader, Expr.setMinus]
 
+/-- **a column name keeps meaning the column when an arithmetic sign follows it without a blank, in any letter
+    case**: the lexer's `looks_like_expression` test on the pending token gives the same answer for `SIZE*2`,
+    `Size+1` and `size*2` — every maximal alphanumeric run is looked up case-insensitively (column, function) or
+    read as an integer, which has no letter case -/
+theorem expression_test_case_insensitive (s t : Str) (h : lowerStr s = lowerStr t) :
+    looksLikeExpression s = looksLikeExpression t := by
+  rw [← LexL.looksLikeExpression_lower s, ← LexL.looksLikeExpression_lower t, h]
+
 /-! ### quoted literals at the lexer -/
 
 /-- **a quoted literal is one `String` token, whatever it contains** — blanks, commas, brackets, operators,
